@@ -52,8 +52,9 @@ int xvu_bell_id;                /* its bell registration */
 const SSL *xvu_ssl;             /* its SSL */
 _Bool xvu_has_pending;          /* what SSL_has_pending() says about that SSL during the call under proof */
 _Bool xvu_null;                 /* the call under proof is made with a NULL socket (close/cleanup) */
+int xvu_in_st, xvu_in_c, xvu_in_sc, xvu_in_sw;  /* conn_update's inputs: conn.state, s->condition, conn.ssl_condition, conn.ssl_wants */
 
-void *nondet_voidp_u(void);
+void *nondet_voidp_u(void); char nondet_char_u(void);
 static inline void xvu_havoc(void)
 {
     xvu.low_st = nondet_int(); xvu.low_updates = nondet_long(); xvu.low_upd_cond = nondet_int();
@@ -65,6 +66,7 @@ static inline void xvu_havoc(void)
     xvu.foreign = nondet_long();
     xvu_low = nondet_voidp_u(); xvu_xpoll = nondet_voidp_u(); xvu_bell_id = nondet_int(); xvu_ssl = nondet_voidp_u();
     xvu_has_pending = nondet_bool(); xvu_null = nondet_bool();
+    xvu_in_st = nondet_int(); xvu_in_c = nondet_int(); xvu_in_sc = nondet_int(); xvu_in_sw = nondet_int();
 }
 #define XVU_CNT_MAX (1L << 40)
 #define XVU_C(c) ((c) >= 0 && (c) < XVU_CNT_MAX)
@@ -177,4 +179,119 @@ int xvu_btls_to_btcp(const char *btls_addr, char *btcp_addr, size_t capacity)
     xvu.addr_rv = 0;
     return 0;
 }
+/* ================================================================================================================ */
+/* C10 jobs only (harness/btlsupd/_c10.h defines XVU_C10 and the ghost-length string models)                         */
+/* ================================================================================================================ */
+#ifdef XVU_C10
+#include "cert.h"
+/* ghost constants, NEVER assigned: what the peer certificate holds */
+size_t xvg_nnames;          /* number of subject names (CN + DNS SANs) */
+size_t xvg_nsan;            /* number of SANs of the type asked for */
+_Bool xvg_has_ski; size_t xvg_ski_len;      /* subject key identifier: present?, its length */
+_Bool xvg_no_str;           /* cert_get_subject_field_cn / cert_get_san / cert_get_dir_cn find nothing (NULL) */
+struct xvg_rec {
+    long names_calls; struct slist *names_list;     /* cert_get_subject_names */
+    long join_calls; const struct slist *join_list; char *join_str;   /* slist_join */
+    long cn_calls, count_calls, san_calls, dir_calls; int san_type; size_t san_index;
+    long has_ski_calls, ski_len_calls, ski_calls; void *ski_buf;
+    long tp_str_calls, tp_bin_calls, tp_bool_calls;
+} xvg;
+static inline void xvg_havoc(void)
+{
+    xvg_len = nondet_size_t(); xvg_c_j = nondet_char_u(); xvg_strcpy_calls = nondet_long(); xvg_strcpy_dst = nondet_voidp_u();
+    xvg_nnames = nondet_size_t(); xvg_nsan = nondet_size_t(); xvg_has_ski = nondet_bool(); xvg_ski_len = nondet_size_t(); xvg_no_str = nondet_bool();
+    xvg.names_calls = nondet_long(); xvg.names_list = nondet_voidp_u(); xvg.join_calls = nondet_long(); xvg.join_list = nondet_voidp_u(); xvg.join_str = nondet_voidp_u();
+    xvg.cn_calls = nondet_long(); xvg.count_calls = nondet_long(); xvg.san_calls = nondet_long(); xvg.dir_calls = nondet_long(); xvg.san_type = nondet_int(); xvg.san_index = nondet_size_t();
+    xvg.has_ski_calls = nondet_long(); xvg.ski_len_calls = nondet_long(); xvg.ski_calls = nondet_long(); xvg.ski_buf = nondet_voidp_u();
+    xvg.tp_str_calls = nondet_long(); xvg.tp_bin_calls = nondet_long(); xvg.tp_bool_calls = nondet_long();
+}
+#define XVG_RANGE (XVU_C(xvg_strcpy_calls) && XVU_C(xvg.names_calls) && XVU_C(xvg.join_calls) && XVU_C(xvg.cn_calls) && XVU_C(xvg.count_calls) && XVU_C(xvg.san_calls) && \
+                   XVU_C(xvg.dir_calls) && XVU_C(xvg.has_ski_calls) && XVU_C(xvg.ski_len_calls) && XVU_C(xvg.ski_calls) && XVU_C(xvg.tp_str_calls) && XVU_C(xvg.tp_bin_calls) && XVU_C(xvg.tp_bool_calls))
+/* a fresh NUL-terminated string of the ghost length xvg_len whose character at the arbitrary position xv_j is xvg_c_j (not NUL) */
+static char *xvg_mkstr(void)
+{
+    char *r = malloc(xvg_len + 1);
+    __CPROVER_assume(r != NULL);
+    r[xvg_len] = 0;
+    if (xv_j >= 0 && (size_t)xv_j < xvg_len) r[xv_j] = xvg_c_j;
+    return r;
+}
+#define XVG_CERT_LIVE(cert) __CPROVER_assert((cert) == XV_X509 && xv_x509_refs > 0, "cert.c: called with the peer certificate while a reference to it is held")
+/* TRUSTED(xcm cert.c) cert_get_subject_names: a new list of the certificate's subject names (possibly empty) */
+struct slist *cert_get_subject_names(X509 *cert)
+{
+    XVG_CERT_LIVE(cert);
+    struct slist *l = malloc(1); __CPROVER_assume(l != NULL);
+    xvg.names_calls++; xvg.names_list = l;
+    xv_slist_n = xvg_nnames;
+    return l;
+}
+/* TRUSTED(xcm slist.c) slist_join: a fresh NUL-terminated string (the elements joined by the delimiter) */
+char *slist_join(const struct slist *slist, char delim)
+{
+    __CPROVER_assert(slist != NULL, "slist_join: list given");
+    xvg.join_calls++; xvg.join_list = slist;
+    xvg.join_str = xvg_mkstr();
+    return xvg.join_str;
+}
+/* TRUSTED(xcm cert.c) cert_get_subject_field_cn: the CN as a fresh string, or NULL */
+char *cert_get_subject_field_cn(X509 *cert) { XVG_CERT_LIVE(cert); xvg.cn_calls++; return xvg_no_str ? NULL : xvg_mkstr(); }
+/* TRUSTED(xcm cert.c) cert_count_san: how many SANs of that type */
+size_t cert_count_san(X509 *cert, enum cert_san_type san_type) { XVG_CERT_LIVE(cert); xvg.count_calls++; xvg.san_type = (int)san_type; return xvg_nsan; }
+/* TRUSTED(xcm cert.c) cert_get_san / cert_get_dir_cn: the index-th SAN of that type as a fresh string, or NULL */
+char *cert_get_san(X509 *cert, enum cert_san_type san_type, size_t index)
+{
+    XVG_CERT_LIVE(cert);
+    __CPROVER_assert(index < xvg_nsan && (int)san_type == xvg.san_type, "cert_get_san: index below the count reported for that type");
+    xvg.san_calls++; xvg.san_index = index;
+    return xvg_no_str ? NULL : xvg_mkstr();
+}
+char *cert_get_dir_cn(X509 *cert, size_t index)
+{
+    XVG_CERT_LIVE(cert);
+    __CPROVER_assert(index < xvg_nsan && xvg.san_type == (int)cert_san_type_dir, "cert_get_dir_cn: index below the count reported for directory names");
+    xvg.dir_calls++; xvg.san_index = index;
+    return xvg_no_str ? NULL : xvg_mkstr();
+}
+/* TRUSTED(xcm cert.c) cert_has_ski / cert_get_ski_len / cert_get_ski: the subject key identifier: cert_get_ski stores exactly
+ * cert_get_ski_len() bytes into the caller's buffer */
+bool cert_has_ski(X509 *cert) { XVG_CERT_LIVE(cert); xvg.has_ski_calls++; return xvg_has_ski; }
+size_t cert_get_ski_len(X509 *cert) { XVG_CERT_LIVE(cert); __CPROVER_assert(xvg_has_ski, "cert_get_ski_len: certificate has an SKI"); xvg.ski_len_calls++; return xvg_ski_len; }
+void cert_get_ski(X509 *cert, void *buf)
+{
+    XVG_CERT_LIVE(cert);
+    __CPROVER_assert(xvg_has_ski, "cert_get_ski: certificate has an SKI");
+    __CPROVER_assert(xvg_ski_len == 0 || __CPROVER_w_ok(buf, xvg_ski_len), "cert_get_ski: room for the whole SKI");
+    xvg.ski_calls++; xvg.ski_buf = buf;
+    if (xvg_ski_len > 0) {
+        __CPROVER_havoc_slice(buf, xvg_ski_len);
+        if (xv_j >= 0 && (size_t)xv_j < xvg_ski_len) ((char *)buf)[xv_j] = xvg_c_j;
+    }
+}
+/* TRUSTED(xcm xcm_tp.c) xcm_tp_get_str_attr / xcm_tp_get_bin_attr / xcm_tp_get_bool_attr: same text as xcm_tp.c (enforced in unit
+ * tpcore), with strlen/strcpy the ghost-length models */
+int xcm_tp_get_str_attr(const char *value, void *buf, size_t capacity)
+{
+    xvg.tp_str_calls++;
+    size_t len = xvg_strlen(value);
+    if (len >= capacity) { xv_errno = EOVERFLOW; return -1; }
+    xvg_strcpy(buf, value);
+    return len + 1;
+}
+int xcm_tp_get_bin_attr(const char *value, size_t len, void *buf, size_t capacity)
+{
+    xvg.tp_bin_calls++;
+    if (len > capacity) { xv_errno = EOVERFLOW; return -1; }
+    memcpy(buf, value, len);
+    return len;
+}
+int xcm_tp_get_bool_attr(bool value, void *buf, size_t capacity)
+{
+    xvg.tp_bool_calls++;
+    if (capacity < sizeof(bool)) { xv_errno = EOVERFLOW; return -1; }
+    memcpy(buf, &value, sizeof(bool));
+    return sizeof(bool);
+}
+#endif
+
 #endif
